@@ -126,6 +126,15 @@ func init() {
 		"internal/abi.NoEscape":  func(ex *Exec, fr *frame, fn *ssa.Function, a []value) value { return a[0] },
 		"internal/abi.Escape":    func(ex *Exec, fr *frame, fn *ssa.Function, a []value) value { return a[0] },
 
+		"time.runtimeNano": func(ex *Exec, fr *frame, fn *ssa.Function, a []value) value { return ex.tt.Const(64, 1) },
+		"runtime.nanotime":  func(ex *Exec, fr *frame, fn *ssa.Function, a []value) value { return ex.tt.Const(64, 1) },
+		"time.runtimeNow": func(ex *Exec, fr *frame, fn *ssa.Function, a []value) value {
+			return tuple{ex.tt.Const(64, 1700000000), ex.tt.Const(32, 0), ex.tt.Const(64, 1)}
+		},
+		"time.now": func(ex *Exec, fr *frame, fn *ssa.Function, a []value) value {
+			return tuple{ex.tt.Const(64, 1700000000), ex.tt.Const(32, 0), ex.tt.Const(64, 1)}
+		},
+
 		// --- sort ---
 		"sort.Slice":       inSortSlice,
 		"sort.SliceStable": inSortSlice,
